@@ -118,6 +118,12 @@ pub fn adopt(token: Token, role: &'static str) {
     }
 }
 
+/// Role name of flush worker `index` (distinct names give deterministic identities).
+pub fn worker_role(index: usize) -> &'static str {
+    const ROLES: [&str; 8] = ["worker0", "worker1", "worker2", "worker3", "worker4", "worker5", "worker6", "worker7"];
+    ROLES[index.min(ROLES.len() - 1)]
+}
+
 pub fn retire(role: &'static str) {
     if let Some(handler) = current() {
         handler.retired(role);
